@@ -9,20 +9,26 @@ Model: `TM/Stream.lean` (`RBuf` = `GraphemeReader.data/start/end` with `fill`/`R
 Sections:
 1. the buffer refines a byte queue: `makeRoom_*`, `fill_*`, `readByte_view`, `consume_view`,
    `init_*`, capacity facts, and the lifted statements over arbitrary operation sequences
-   (`reader_exactly_once_in_order`, `reader_stream_conservation`, `reader_capacity`, ...);
-2. `Terminal.Write`: `write_all_ok`, `write_prefix`, `write_error_reported`, `write_injected`,
-   `write_short`, `write_fuel_suffices`;
+   (`reader_exactly_once_in_order`, `exec_mono`, `reader_capacity`) and over a fixed source
+   stream with arbitrary read sizes (`reader_stream_conservation`);
 3. tee: `tee_exact`;
-4. zero-length read at the parser level: `feed_nil`.
+2. `Terminal.Write`: `write_all_ok`, `write_all_ok_then_anything`, `write_prefix`,
+   `write_error_reported`, `write_error_sound`, `write_injected`, `write_short`,
+   `write_fuel_suffices`;
+4. zero-length read at the parser level: `feed_nil`, `feedAll_nil_chunk`;
+5. `ReadByte` over reads that may report an error together with data: `readByteE_conservation`,
+   `readByteE_error_iff`, `readByteE_stops`;
+then non-vacuity examples and `#print axioms`.
 
-Not covered here (Go glue / OS, checked on the implementation by the harness: special checks
-`streams`, `ttymirror`): `Resize` forwarding exactly `(w,h)` to `Backend.SetSize`, the PTY
-winsize (`h` rows, `w` columns), and the outer loop stopping when `Read` reports an error/EOF.
-In the model a read error does not exist as a separate input because `fill()` stores the `n`
-bytes first and only then returns `err`: "bytes returned together with an error" go through
-`RBuf.fill` exactly like any others, which is what section 1 is about.
+In the model a read error is not an input of `RBuf.fill` because `fill()` stores the `n` bytes
+first and only then returns `err`: "bytes returned together with an error" go through
+`RBuf.fill` exactly like any others (section 1); section 5 adds the loop of `ReadByte` around it.
 
-Everything in `Lemmas` is a helper.
+Not covered here (Go glue / OS, checked on the implementation by the harness, special checks
+`streams` and `ttymirror`): `Resize` forwarding exactly `(w,h)` to `Backend.SetSize`, the PTY
+winsize (`h` rows, `w` columns), and the outermost `ptyReadLoop` returning on the error.
+
+Everything in `Lemmas`, and `inv_init`, `step_inv`, `exec_inv`, `step_mono`, `execS_inv`, are helpers.
 -/
 namespace TM.C16
 open TM
@@ -878,4 +884,300 @@ theorem feedAll_nil_chunk (cw : Nat → Nat) (s : Sys) (h : next s.pending = .ne
     Sys.feedAll cw s ([] :: cs) = Sys.feedAll cw s cs := by
   simp only [Sys.feedAll, feed_nil cw s h, List.nil_append]
 
+
+/-! ## 5. `ReadByte` over reads that may report an error
+
+`RBuf.fill` has no error input because `fill()` stores the `n` bytes before it returns `err`.
+To state the two error clauses of the property ("including bytes returned together with an
+error", "stops once a read reports an error or EOF with no further data") this section
+transcribes the loop of `GraphemeReader.ReadByte` (`grapheme_reader.go`)
+
+    for r.Buffered() == 0 { err := r.fill(); if err != nil { if r.Buffered() == 0 { return 0, err }; break } }
+    if r.Buffered() == 0 { return 0, io.EOF };  b := r.data[r.start]; r.start++; return b, nil
+
+over a script whose k-th entry `(got, err)` is what the k-th `src.Read` returns. (This loop is
+defined here, on top of the harness-checked `RBuf.fill` / `RBuf.readByte`; an exhausted script
+counts as EOF.) -/
+
+/-- `(got, err)`: the bytes a `Read` returns and whether it also reports an error (`io.EOF` or other) -/
+abbrev RScript := List (Bytes × Bool)
+
+/-- the `for` loop: returns the buffer, the reads not made, and the chunk taken by each read made -/
+def fillLoop : RBuf → RScript → RBuf × RScript × List Bytes
+  | r, [] => (r, [], [])
+  | r, (got, err) :: rest =>
+    if r.view.isEmpty then
+      let r1 := r.fill got
+      let tk := got.take r.makeRoom.room
+      if err then (r1, rest, [tk])
+      else
+        let out := fillLoop r1 rest
+        (out.1, out.2.1, tk :: out.2.2)
+    else (r, (got, err) :: rest, [])
+
+/-- `ReadByte`: `some b` = `(b, nil)`, `none` = `(0, err)` -/
+def readByteE (r : RBuf) (script : RScript) : Option UInt8 × RBuf × RScript × List Bytes :=
+  let out := fillLoop r script
+  match out.1.readByte with
+  | none => (none, out.1, out.2.1, out.2.2)
+  | some (b, r2) => (some b, r2, out.2.1, out.2.2)
+
+namespace Lemmas
+
+theorem fillLoop_spec : ∀ (script : RScript) (r : RBuf), r.wf →
+    (fillLoop r script).1.wf ∧
+    (fillLoop r script).1.view = r.view ++ (fillLoop r script).2.2.flatten ∧
+    script = script.take (fillLoop r script).2.2.length ++ (fillLoop r script).2.1 ∧
+    (r.view ≠ [] → (fillLoop r script).2.2 = []) ∧
+    (∀ i, i + 1 < (fillLoop r script).2.2.length →
+      (fillLoop r script).2.2[i]? = some [] ∧ (script[i]?.map (·.2)) = some false) := by
+  intro script
+  induction script with
+  | nil => intro r h; simp [fillLoop, h]
+  | cons p rest ih =>
+    intro r h
+    obtain ⟨got, err⟩ := p
+    unfold fillLoop
+    cases hv : r.view.isEmpty with
+    | false =>
+      simp only [Bool.false_eq_true, if_false]
+      simp [h]
+    | true =>
+      have hv' : r.view = [] := List.isEmpty_iff.mp hv
+      simp only [if_true]
+      cases err with
+      | true =>
+        simp only [if_true]
+        refine ⟨fill_wf _ _ h, ?_, ?_, ?_, ?_⟩
+        · rw [fill_view _ _ h]; simp
+        · simp
+        · intro hne; exact absurd hv' hne
+        · intro i hi; simp at hi
+      | false =>
+        simp only [Bool.false_eq_true, if_false]
+        have h1 := fill_wf r got h
+        obtain ⟨a1, a2, a3, a4, a5⟩ := ih (r.fill got) h1
+        refine ⟨a1, ?_, ?_, ?_, ?_⟩
+        · rw [a2, fill_view _ _ h]; simp
+        · simp only [List.length_cons, List.take_succ_cons, List.cons_append]
+          rw [← a3]
+        · intro hne; exact absurd hv' hne
+        · intro i hi
+          simp only [List.length_cons] at hi
+          cases i with
+          | zero =>
+            -- more reads were made after this one, so it left the buffer empty
+            have hne : (fillLoop (r.fill got) rest).2.2 ≠ [] := by
+              intro hc; rw [hc] at hi; simp at hi
+            have hemp : (r.fill got).view = [] := by
+              cases hq : (r.fill got).view with
+              | nil => rfl
+              | cons x xs => exact absurd (a4 (by rw [hq]; simp)) hne
+            rw [fill_view _ _ h, hv', List.nil_append] at hemp
+            simp [hemp]
+          | succ j =>
+            have := a5 j (by omega)
+            simpa using this
+
+end Lemmas
+
+/-- **Bytes returned together with an error are interpreted like any others; nothing is lost
+around an error.** Whatever `ReadByte` returns, the byte returned (if any) followed by what is
+buffered afterwards is what was buffered before followed by every chunk the reads delivered —
+whether or not the read reported an error — and the reads made are a prefix of the script. -/
+theorem readByteE_conservation (r : RBuf) (script : RScript) (h : r.wf) :
+    let out := readByteE r script
+    out.1.toList ++ out.2.1.view = r.view ++ out.2.2.2.flatten ∧ out.2.1.wf ∧
+      script = script.take out.2.2.2.length ++ out.2.2.1 := by
+  obtain ⟨a1, a2, a3, _, _⟩ := fillLoop_spec script r h
+  simp only [readByteE]
+  split
+  · rename_i hr
+    rw [readByte_none] at hr
+    exact ⟨by rw [← a2, hr]; rfl, a1, a3⟩
+  · rename_i b r2 hr
+    have := readByte_view _ r2 b a1 hr
+    exact ⟨by rw [← a2, this.1]; rfl, this.2, a3⟩
+
+/-- **An error (or EOF) is returned only when there is no data at all**: `ReadByte` fails iff
+nothing was buffered and every read made delivered nothing. In particular, if the read that
+reported the error also delivered bytes, the first of them is returned with a nil error. -/
+theorem readByteE_error_iff (r : RBuf) (script : RScript) (h : r.wf) :
+    (readByteE r script).1 = none ↔ r.view = [] ∧ (readByteE r script).2.2.2.flatten = [] := by
+  obtain ⟨a1, a2, _, _, _⟩ := fillLoop_spec script r h
+  simp only [readByteE]
+  split
+  · rename_i hr
+    rw [readByte_none, a2] at hr
+    simpa using hr
+  · rename_i b r2 hr
+    have := (readByte_view _ r2 b a1 hr).1
+    rw [a2] at this
+    constructor
+    · intro hc; cases hc
+    · intro hc; rw [hc.1, hc.2] at this; cases this
+
+/-- **The loop stops at the first read that reports an error or delivers data**, and makes no
+read at all while data is buffered: every read made except the last delivered nothing and
+reported no error. -/
+theorem readByteE_stops (r : RBuf) (script : RScript) (h : r.wf) :
+    (r.view ≠ [] → (readByteE r script).2.2.2 = []) ∧
+    ∀ i, i + 1 < (readByteE r script).2.2.2.length →
+      (readByteE r script).2.2.2[i]? = some [] ∧ script[i]?.map (·.2) = some false := by
+  obtain ⟨_, _, _, a4, a5⟩ := fillLoop_spec script r h
+  simp only [readByteE]
+  split <;> exact ⟨a4, a5⟩
+
+/-! ## non-vacuity
+
+Small hand-made buffers of capacity 4 (so that `decide` is fast) exercising: a buffer filled to
+the brim (doubling), compaction with `start > 0`, the reset when everything was consumed, reads
+larger than the free space, zero-length reads; plus two runs on the real 4096-byte buffer. -/
+section Examples
+
+/-- capacity 4, empty -/
+def empty4 : RBuf := { data := [0, 0, 0, 0], start := 0, stop := 0 }
+/-- capacity 4, filled to the brim, nothing consumed -/
+def full4 : RBuf := { data := [1, 2, 3, 4], start := 0, stop := 4 }
+/-- capacity 4, full, two bytes consumed -/
+def mid4 : RBuf := { data := [1, 2, 3, 4], start := 2, stop := 4 }
+/-- capacity 4, full, everything consumed -/
+def spent4 : RBuf := { data := [1, 2, 3, 4], start := 4, stop := 4 }
+
+example : empty4.wf ∧ full4.wf ∧ mid4.wf ∧ spent4.wf := by
+  simp [RBuf.wf, empty4, full4, mid4, spent4]
+
+/-- brim-full: the array is doubled, both offered bytes are taken after the four old ones -/
+example : (full4.fill [5, 6]).view = [1, 2, 3, 4, 5, 6] ∧ (full4.fill [5, 6]).data.length = 8 ∧
+    full4.makeRoom.room = 4 := by decide
+/-- compaction with `start > 0`: two bytes of room are recovered, the third offered byte is
+not taken, no doubling -/
+example : (mid4.fill [5, 6, 7]).view = [3, 4, 5, 6] ∧ (mid4.fill [5, 6, 7]).data.length = 4 ∧
+    (mid4.fill [5, 6, 7]).start = 0 ∧ mid4.makeRoom.room = 2 := by decide
+/-- everything consumed: indices reset, the whole array is free again -/
+example : (spent4.fill [9]).view = [9] ∧ spent4.makeRoom.room = 4 ∧ (spent4.fill [9]).data.length = 4 := by
+  decide
+/-- zero-length read on a full buffer: view unchanged (the array is doubled all the same) -/
+example : (full4.fill []).view = [1, 2, 3, 4] ∧ (full4.fill []).data.length = 8 := by decide
+example : mid4.readByte.map (fun p => (p.1, p.2.view)) = some (3, [4]) ∧
+    spent4.readByte.map (·.1) = none ∧ (mid4.consume 2).view = [] := by decide
+
+set_option maxRecDepth 100000 in
+/-- a legal run on the real 4096-byte buffer, with a zero-length read in the middle -/
+example : (exec {} [.fill [65, 66, 67], .readByte, .consume 1, .fill [], .fill [68]]).map
+    (fun s => (s.consumed, s.buf.view, s.reads)) =
+      some ([65, 66], [67, 68], [[65, 66, 67], [], [68]]) := by decide
+set_option maxRecDepth 100000 in
+/-- illegal operations are rejected (the hypotheses `exec … = some s` are not trivially true) -/
+example : (exec {} [.consume 1]).isNone ∧ (exec {} [.readByte]).isNone ∧
+    (exec {} [.fill [1], .consume 2]).isNone := by decide
+
+/-- a 5000-byte offer to the fresh buffer: exactly 4096 bytes are taken; the next `fill` finds
+the buffer brim-full and doubles it to 8192 -/
+example : (RBuf.init.fill (List.replicate 5000 7)).view = List.replicate 4096 7 ∧
+    ((RBuf.init.fill (List.replicate 5000 7)).fill [1, 2]).data.length = 8192 ∧
+    ((RBuf.init.fill (List.replicate 5000 7)).fill [1, 2]).view = List.replicate 4096 7 ++ [1, 2] := by
+  have hroom : RBuf.init.makeRoom.room = 4096 := by
+    rw [makeRoom_room _ init_wf, makeRoom_capacity _ init_wf, init_view, init_capacity]
+    simp only [List.length_nil, readBufferSize]
+    decide
+  have hv : (RBuf.init.fill (List.replicate 5000 7)).view = List.replicate 4096 7 := by
+    rw [fill_view _ _ init_wf, init_view, hroom, List.nil_append, List.take_replicate]; rfl
+  have hw := fill_wf RBuf.init (List.replicate 5000 7) init_wf
+  have hc : (RBuf.init.fill (List.replicate 5000 7)).data.length = 4096 := by
+    rw [fill_capacity _ _ init_wf, makeRoom_capacity _ init_wf, init_view, init_capacity]
+    simp only [List.length_nil, readBufferSize]
+    decide
+  have hc2 : ((RBuf.init.fill (List.replicate 5000 7)).fill [1, 2]).data.length = 8192 := by
+    rw [fill_capacity _ _ hw, makeRoom_capacity _ hw, hv, hc]
+    simp only [List.length_replicate]; decide
+  refine ⟨hv, hc2, ?_⟩
+  rw [fill_view _ _ hw, hv, makeRoom_room _ hw, ← fill_capacity _ [1, 2] hw, hc2, hv]
+  simp only [List.length_replicate]
+  congr 1
+
+/-- a 10-byte stream through a capacity-4 buffer with reads of size 10, 10, 1, 0, 100:
+compaction twice, one doubling (4 → 8), every byte accounted for -/
+example : (execS [1, 2, 3, 4, 5, 6, 7, 8, 9, 10] { buf := empty4 }
+      [.read 10, .consume 3, .read 10, .readByte, .read 1, .read 0, .consume 2, .read 100]).map
+      (fun o => (o.1, o.2.consumed, o.2.buf.view, o.2.reads, o.2.buf.data.length)) =
+    some ([], [1, 2, 3, 4, 5, 6], [7, 8, 9, 10], [[1, 2, 3, 4], [5, 6, 7], [8], [], [9, 10]], 8) := by
+  decide
+/-- the same stream when nothing is consumed between reads: two doublings would be needed for
+more; here 4 → 8, and the bytes that did not fit stay with the source -/
+example : (execS [1, 2, 3, 4, 5, 6, 7, 8, 9, 10] { buf := empty4 } [.read 10, .read 10]).map
+      (fun o => (o.1, o.2.buf.view, o.2.buf.data.length)) =
+    some ([9, 10], [1, 2, 3, 4, 5, 6, 7, 8], 8) := by decide
+
+/-- `Terminal.Write` of 10 bytes -/
+example : terminalWrite [1, 2, 3, 4, 5, 6, 7, 8, 9, 10] [some 3, some 0] = (3, .shortWrite, [1, 2, 3]) := by
+  decide
+example : terminalWrite [1, 2, 3, 4, 5, 6, 7, 8, 9, 10] [some 3, none, some 4] = (3, .injected, [1, 2, 3]) := by
+  decide
+example : terminalWrite [1, 2, 3, 4, 5, 6, 7, 8, 9, 10] [some 3, some 4, some 100, none] =
+    (10, .nil, [1, 2, 3, 4, 5, 6, 7, 8, 9, 10]) := by decide
+/-- an empty slice makes no call at all, so a failing backend is not noticed -/
+example : terminalWrite [] [none] = (0, .nil, []) := by decide
+example : allPos [some 3, some 4, some 1] := by
+  intro x hx
+  simp only [List.mem_cons, List.not_mem_nil, or_false] at hx
+  rcases hx with rfl | rfl | rfl <;> exact ⟨_, rfl, by decide⟩
+/-- `write_injected` / `write_short` apply for every injection index (here index 2) -/
+example : terminalWrite [1, 2, 3, 4, 5, 6, 7, 8, 9, 10] ([3, 4].map some ++ none :: []) =
+    (7, .injected, [1, 2, 3, 4, 5, 6, 7]) :=
+  write_injected _ [3, 4] [] (by decide) (by decide)
+
+/-- quiescent reader states with something pending: a lone ESC, a truncated UTF-8 character -/
+example : next [27] = .need ∧ next [0xE2, 0x82] = .need := by decide
+
+/-- data together with an error is delivered (after an empty read); the read after the error
+is not made -/
+example : (let o := readByteE empty4 [([], false), ([7, 8], true), ([9], false)];
+    (o.1, o.2.1.view, o.2.2.1, o.2.2.2)) = (some 7, [8], [([9], false)], [[], [7, 8]]) := by decide
+/-- an error without data stops the loop with an error -/
+example : (let o := readByteE empty4 [([], false), ([], true), ([9], false)];
+    (o.1, o.2.1.view, o.2.2.1, o.2.2.2)) = (none, [], [([9], false)], [[], []]) := by decide
+
+end Examples
 end TM.C16
+
+#print axioms TM.C16.view_length
+#print axioms TM.C16.view_getElem?
+#print axioms TM.C16.makeRoom_view
+#print axioms TM.C16.makeRoom_wf
+#print axioms TM.C16.makeRoom_room_pos
+#print axioms TM.C16.makeRoom_start
+#print axioms TM.C16.makeRoom_capacity
+#print axioms TM.C16.makeRoom_room
+#print axioms TM.C16.makeRoom_capacity_mono
+#print axioms TM.C16.fill_view
+#print axioms TM.C16.fill_wf
+#print axioms TM.C16.fill_capacity
+#print axioms TM.C16.fill_nil
+#print axioms TM.C16.fill_fits
+#print axioms TM.C16.fill_progress
+#print axioms TM.C16.readByte_view
+#print axioms TM.C16.readByte_none
+#print axioms TM.C16.consume_view
+#print axioms TM.C16.init_wf
+#print axioms TM.C16.init_view
+#print axioms TM.C16.init_capacity
+#print axioms TM.C16.reader_exactly_once_in_order
+#print axioms TM.C16.reader_capacity
+#print axioms TM.C16.exec_mono
+#print axioms TM.C16.reader_stream_conservation
+#print axioms TM.C16.write_all_ok
+#print axioms TM.C16.write_all_ok_then_anything
+#print axioms TM.C16.write_prefix
+#print axioms TM.C16.write_error_reported
+#print axioms TM.C16.write_error_sound
+#print axioms TM.C16.write_injected
+#print axioms TM.C16.write_short
+#print axioms TM.C16.write_fuel_suffices
+#print axioms TM.C16.tee_exact
+#print axioms TM.C16.feed_nil
+#print axioms TM.C16.feed_nil_of_empty
+#print axioms TM.C16.feedAll_nil_chunk
+#print axioms TM.C16.readByteE_conservation
+#print axioms TM.C16.readByteE_error_iff
+#print axioms TM.C16.readByteE_stops
